@@ -595,7 +595,15 @@ def run_c17(ctx, model, focus="C17"):
     shared = SharedNet(model, {})
     d = cd.CIPDriver("10.0.0.1/bp/0")
     d._sock = NetSocket(shared)
-    d.open()
+    try:
+        d.open()
+    except BaseException as e:  # noqa
+        if isinstance(e, (KeyboardInterrupt, SystemExit)):
+            raise
+        # a healthy target, no faults: open() has no reason to fail (the frames it wrote are judged by the frame monitor)
+        ctx.violation("open-fails-on-a-healthy-target:" + core.exn_class(e), {"history": "open on a fresh driver", "focus": focus,
+                      "frames": [f.hex()[:120] for f in shared.frames][:4]}, repr(e)[:200])
+        return
     skip = 0 if ctx.tier == "thorough" else 65535 * rng.choice([1, 2]) - rng.randint(100, 400)
     for _ in range(skip):
         next(d._sequence)
